@@ -601,6 +601,20 @@ def load_average(check, prog):
                         good = None
             if good is None:
                 continue
+            # coordinate / spacing is a float such as 2.9999999: it must be rounded
+            # to the nearest pixel before it becomes an integer index
+            ROUND = ('numpy.around', 'numpy.round', 'numpy.rint', 'round', 'numpy.round_')
+            for dv in divs:
+                if not any(z == ('idx', sym('refimg'), ('const', ax))
+                           for z in subterms(dv[2])):
+                    continue
+                rounded = any(y[0] == 'call' and y[1] in ROUND and y[2] and y[2][0] == dv
+                              for y in subterms(t))
+                check.require(rounded, 'U4-crop-rounding', 'load_average crop ' + ax,
+                              'pixel index = round(reference coordinate / spacing)',
+                              loc, fail_detail='%s is converted to an index without '
+                              'rounding: a quotient just below an integer is truncated '
+                              'and the crop is shifted by one pixel' % show(dv)[:100])
             check.require(bool(good), 'U4-crop-spacing', 'load_average crop ' + ax,
                           'the %s extent of the reference image is converted to pixels '
                           'with the %s spacing' % (ax, ax), loc, fail_detail=why)
